@@ -1,3 +1,3 @@
 SPECIFICATION Spec
-INVARIANT Inv
+INVARIANTS Inv HugeInv
 CHECK_DEADLOCK TRUE
